@@ -909,6 +909,79 @@ def stream_same_writer(ctx, res, printed):
     res["distribution"]["same_writer_object(2-3 writes on one writer object; each document compared with a fresh writer's for the same set)"] = out
 
 
+# ------------------------------------------------------------------------------------------------ F
+ALIGN_DOC = ('<?xml version="1.0" encoding="utf-8"?>\n<tt xml:lang="en" xmlns="http://www.w3.org/ns/ttml" '
+             'xmlns:tts="http://www.w3.org/ns/ttml#styling">\n <head><layout><region xml:id="r9" tts:origin="10%% 10%%"%s/></layout></head>\n'
+             ' <body><div xml:lang="en-US"><p begin="00:00:01.000" end="00:00:02.000" region="r9">hello</p></div></body>\n</tt>\n')
+
+
+def stream_alignment_names(ctx, res):
+    """wave 7: tts:textAlign / tts:displayAlign at string level (model/DfxpAlign.v, requests 1214 / 1215).
+    Reader: a region with every pair of attribute values (the TTML names, absent, empty, unknown, upper case) is read by
+    DFXPReader and the caption's alignment compared with read_alignment; on names / absent values the statement's clause
+    'absent parts taking the DFXP defaults (start / after)' is the property oracle.  Writer: the names printed in <region>
+    for every alignment are the model's written_alignment (and the tables of dfxpdoc7 are the model's names)."""
+    tas = [None, "", "left", "start", "center", "right", "end", "justify", "LEFT"]
+    das = [None, "", "before", "center", "after", "top"]
+    cases = [(ta, da) for ta in tas for da in das]
+    ms = oracle_batch([(1214, [None if ta is None else Some(ta), None if da is None else Some(da)]) for ta, da in cases])
+    n = 0
+    for (ta, da), m in zip(cases, ms):
+        att = ("" if ta is None else ' tts:textAlign="%s"' % ta) + ("" if da is None else ' tts:displayAlign="%s"' % da)
+        doc = ALIGN_DOC % att
+        r = impl.call(lambda: DFXPReader().read(doc))
+        res["evaluations"] += 1
+        base = {"replay": "align-names", "input": [ta, da]}
+        if isinstance(r, Err):
+            res["violations"].append(dict(base, kind="dfxp-alignment-names", impl_obs=repr(r),
+                                          what=f"DFXPReader raised {r!r} on a region with textAlign={ta!r} displayAlign={da!r}"))
+            continue
+        lay = r.v.get_captions("en-US")[0].layout_info
+        al = None if lay is None or lay.alignment is None else geom.w_alignment(lay.alignment)
+        obs = None if al is None else tuple(None if x is None else x.v for x in al)
+        mod = None if m == [] else tuple(None if x == [] else x[0] for x in m[0])
+        if (ta in HN or ta is None) and (da in dfxpdoc7.VALIGN or da is None):
+            # (an EMPTY attribute value is not "absent" by the letter: compared with the model only, like unknown names)
+            want = (HN.index(ta) if ta else 3, dfxpdoc7.VALIGN.index(da) if da else 2)
+            n += 1
+            if obs != want:
+                res["violations"].append(dict(base, kind="dfxp-alignment-names", impl_obs=repr(obs),
+                                              what=f"a region with textAlign={ta!r} displayAlign={da!r} is read as alignment {obs!r} "
+                                                   f"(members by index; expected {want!r}: the named members, absent parts start / after)"))
+                continue
+            res["nontrivial"].add(("align-names", ta, da))
+        if obs != mod:
+            res["disagreements"].append(dict(base, stream="align-names", impl=repr(obs), model=repr(mod)))
+    # writer: names printed for every alignment
+    tabs = None
+    nw = 0
+    for h in [None, 0, 1, 2, 3, 4]:
+        for v in [None, 0, 1, 2]:
+            for wrap in ((True, False) if (h, v) == (None, None) else (True,)):
+                a = (h, v) if wrap else None
+                lay = (((10, 2), (10, 2)), None, None, a, None)
+                acs = {"global": None, "langs": [{"name": "en-US", "layout": None,
+                                                  "caps": [{"layout": lay, "nodes": [["text", "w0", None]]}]}]}
+                out = impl.call(lambda: DFXPWriter().write(posgen.build(acs)))
+                m = oracle_batch([(1215, None if a is None else Some(geom.a_align_w(a)))])[0]
+                tabs = (m[0], m[1])
+                res["evaluations"] += 1
+                if isinstance(out, Err):
+                    res["disagreements"].append({"stream": "align-names-writer", "input": acs, "impl": repr(out), "model": repr(m)})
+                    continue
+                parsed = dfxpdoc7.parse_written(out.v, ["w0"])
+                regs = [att for rid_, att in parsed[0] if att.get("origin")] if parsed else []
+                got = (regs[0].get("textAlign"), regs[0].get("displayAlign")) if regs else "no region"
+                want = (None if m[2] == [] else m[2][0], None if m[3] == [] else m[3][0])
+                nw += 1
+                if got != want:
+                    res["disagreements"].append({"stream": "align-names-writer", "input": acs, "impl": repr(got), "model": repr(want)})
+    if tabs is not None and (list(tabs[0]) != HN or list(tabs[0]) != dfxpdoc7.HALIGN or list(tabs[1]) != dfxpdoc7.VALIGN):
+        res["disagreements"].append({"stream": "align-names-tables", "input": "names", "impl": repr((HN, dfxpdoc7.VALIGN)), "model": repr(tabs)})
+    res["distribution"]["alignment_names(reader: attribute value pairs judged / compared with the model; writer: alignments compared)"] = \
+        [n, len(cases), nw]
+
+
 NEAR_TIES = [0]
 READER = [0]
 SET_FALLBACK = [0]
@@ -936,13 +1009,14 @@ def close_layout(a, b, tol=Fraction(1, 10**9)):
 def run(ctx):
     from props.C13 import Printed
     res = {"evaluations": 0, "nontrivial": set(), "violations": [], "disagreements": [], "distribution": {},
-           "streams": 5, "notes": []}
+           "streams": 6, "notes": []}
     printed = Printed()
     stream_settings(ctx, res, printed)
     stream_vtt(ctx, res, printed)
     stream_dfxp(ctx, res)
     stream_history(ctx, res, printed)
     stream_same_writer(ctx, res, printed)
+    stream_alignment_names(ctx, res)
     res["distribution"]["vtt_timing_lines_whose_kept_settings_are_the_reader_model's(request 1213)"] = READER[0]
     res["distribution"]["dfxp_written_document_vs_model(request 1211; lxml as an independent observer)"] = dict(DOCS)
     res["rule"] = ("settings: all 6x4 alignment pairs x padding/extent presence on a value grid + random layouts (percent, absolute "
@@ -963,6 +1037,7 @@ def run(ctx):
                     "reader side: the settings kept from a timing line are exactly the text between the white space after the end time and the trailing white space; they survive write -> read",
                     "effective-layout fallback node > caption > language; region table lookup total and faithful (no collision)",
                     "region attributes printed and read back give the two-decimal layout with defaults start / after",
+                    "alignment names: what the writer prints for any alignment reads back as the same members, absent ones as start / after (string level)",
                     "region bookkeeping: layouts that need a region share one iff they are equal; table keys pairwise different; ids r0..r(n-1) without gaps",
                     "cleanup_regions leaves the reader's result unchanged for every document; the written document's regions are exactly the referenced ones (no dangling reference, no orphan)"],
         "correspondence_only": ["the DFXP round trip through BeautifulSoup (region resolution on read); the written document (region table after cleanup, region attribute of the element each word sits in) is compared with the model's document (request 1211) through lxml",
@@ -1004,6 +1079,17 @@ def replay(ctx, rec):
         except (ValueError, TypeError):
             return True, o.v
         return oracle_batch([(1310, [geom.a_layout_w(t.v), ws])])[0] != 1, o.v
+    if tag == "align-names":
+        ta, da = rec["input"]
+        att = ("" if ta is None else ' tts:textAlign="%s"' % ta) + ("" if da is None else ' tts:displayAlign="%s"' % da)
+        r = impl.call(lambda: DFXPReader().read(ALIGN_DOC % att))
+        if isinstance(r, Err):
+            return True, repr(r)
+        lay = r.v.get_captions("en-US")[0].layout_info
+        al = None if lay is None or lay.alignment is None else geom.w_alignment(lay.alignment)
+        obs = None if al is None else tuple(None if x is None else x.v for x in al)
+        want = (HN.index(ta) if ta else 3, dfxpdoc7.VALIGN.index(da) if da else 2)
+        return obs != want, repr(obs)
     if tag == "same-writer":
         seq = [(a, l) for a, l in rec["input"]]
         check_same_writer(rec["fmt"], tuple(rec["cfg"]), seq, res)
